@@ -1,6 +1,6 @@
 --------------------------- MODULE CodecNegDomain ---------------------------
 (* C15: the codec domain the negotiation vectors are drawn from, and the     *)
-(* table of parsed fmtp lines (LineCache of CodecOps) for it.                *)
+(* cache of parsed fmtp lines and mime types (CodecOps ParseC) for it.       *)
 EXTENDS CodecOps
 
 D(m, c, n, l) == [mime |-> m, clock |-> c, ch |-> n, line |-> l]
@@ -41,7 +41,6 @@ FBs == << <<>>, <<"nack">>, <<"nack", "nack pli">>, <<"goog-remb", "nack pli", "
 \* every fmtp line of the domain, and every line apt rewriting can produce from one of them
 AptLines == {"apt=" \o ToString(PTs[i]) : i \in 1..Len(PTs)} \cup {"apt=" \o ToString(PTs[i]) \o ";rtx-time=3000" : i \in 1..Len(PTs)}
 \* (@@ forces TLC to tabulate a function instead of re-evaluating its body at every application)
-NoFcn == [x \in {} |-> 0]
 NegLineCache ==
   [lines |-> [l \in {Descs[i].line : i \in 1..NDesc} \cup AptLines |-> ParseLine(l)] @@ NoFcn,
    mimes |-> [m \in {Descs[i].mime : i \in 1..NDesc} |-> ParseMime(m)] @@ NoFcn]
